@@ -115,6 +115,9 @@ CASES = [
     ("r-recursion", "fn f(n: u32) -> u32 { if n == 0 { 0 } else { f(n - 1) } }", ("refuse", "recursive")),
     ("r-closure", "fn f(a: u32) -> u32 { let g = |x: u32| x + 1; g(a) }", ("refuse", "closure")),
     ("r-mut-opaque", "fn f(t: &mut Transaction) { }", ("refuse", "&mut parameter of an opaque type")),
+    # (b1617, round 9) a newtype read as its component: `&mut self` writes `self.0`, `Type::f()` of a tuple struct
+    ("tsmut", "pub struct M(Vec<u32>);\nimpl M { pub fn add(&mut self, x: u32) { self.0.push(x); } }", ("expect", ["(self : List Nat)", "(self ++ [x])"]), ("M", "add")),
+    ("tsassoc", "pub struct M(Vec<u32>);\nimpl M { pub fn new() -> Self { M(vec![]) } }\nfn f() -> M { M::new() }", ("expect", ["(M.new)"])),
     ("r-orbind", "fn f(e: E) -> u32 { match e { E::A(n) | E::A(n) => n, _ => 0 } }", ("refuse", "or-pattern that binds")),
     # (b1012, round 9) `x.into()` between two structs of the unit = the one `impl From<_> for T`; no such impl / no wanted type: refused
     ("intofrom", "pub struct T { pub a: u64 }\nimpl From<S> for T { fn from(s: S) -> Self { T { a: s.a } } }\nfn f(s: S) -> T { s.into() }",
